@@ -160,11 +160,12 @@ def run(run):
         tr, mm = validate_part(run, b, "lookup", 24, ("lookup", 0, 1), classes)
         first = (tr, mm)
     else:
-        nparts = 12
-        first = None
-        for p in range(nparts):
-            tr, mm = validate_part(run, b, f"lookup{p:02d}", 100000, ("lookup", p, nparts), classes)
-            first = first or (tr, mm)
+        # every Zone/Link name of tzdata.zi, in parts (one TLC process per part, four at a time)
+        from concurrent.futures import ThreadPoolExecutor
+        nparts = 16
+        with ThreadPoolExecutor(max_workers=4) as ex:
+            res = list(ex.map(lambda p: validate_part(run, b, f"lookup{p:02d}", 100000, ("lookup", p, nparts), classes), range(nparts)))
+        first = res[0]
     negative_control_trace(run, *first)
     run.cov["classes"] = {k: v for k, v in sorted(classes.items())}
     missing = [p for p in REQUIRED_PREFIXES if not any(k.startswith(p) for k in classes)]
